@@ -28,4 +28,9 @@ def noPanic {α} : Except HErr α → Prop
   | .error .panic => False
   | _ => True
 
+/-- Was the input rejected with an ordinary error? (for `decide`d examples) -/
+def isReject {α} : Except HErr α → Bool
+  | .error .reject => true
+  | _ => false
+
 end UF
